@@ -279,6 +279,69 @@ def make_ob(name, mk, state_of, ref, kind, first, method, seed):
                       sample="new parameters, new accumulator, gradient evaluation point and returned cost equal the documented rule")
 
 
+def rotosolve_obligations(tier):
+    """E1 contract on RotosolveOptimizer.min_analytic: the returned position is the closed-form point u = -pi/(2f) - B/f or
+    u + one PERIOD (2*pi/f) of the objective, and lies in (-pi/f, pi/f]; the returned value is C - A."""
+    import z3
+    from vf.pyvc.engine import World, T, Float, FloatV, real_of
+    from vf.pyvc.contract import FnContract, Case, obligations_for
+    from vf.pyvc.spec import And, Or
+    PI = z3.Real("pi")
+    ATAN2 = z3.Function("arctan2", z3.RealSort(), z3.RealSort(), z3.RealSort())
+    SQRT = z3.Function("sqrt", z3.RealSort(), z3.RealSort())
+
+    def b_atan2(it, args, kw):
+        y, x_ = real_of(args[0]), real_of(args[1])
+        r = ATAN2(y, x_)
+        it.ctx.assume(z3.And(r >= -PI, r <= PI))          # assumed contract of numpy.arctan2: result in [-pi, pi]
+        return FloatV(r)
+
+    def b_sqrt(it, args, kw):
+        a = real_of(args[0])
+        r = SQRT(a)
+        it.ctx.assume(z3.Implies(a >= 0, z3.And(r >= 0, r * r == a)))
+        return FloatV(r)
+    w = World("pennylane/optimize/rotosolve.py", classes={"RotosolveOptimizer": {}},
+              extra_builtins={"np.arctan2": b_atan2, "np.sqrt": b_sqrt})
+    w.module_values = {"np.pi": FloatV(PI)}
+
+    def ghost(ctx, a):
+        ctx.assume(z3.And(PI > z3.RealVal("3.14"), PI < z3.RealVal("3.15")))
+
+    def post(o, r, n):
+        if isinstance(o.freq, float):
+            # native (replay) form: the returned position minimises the single-frequency objective and lies in (-pi/f, pi/f]
+            F_ = o.objective_fn
+            x_min, y_min = float(r[0]), float(r[1])
+            grid_min = min(F_(-math.pi / o.freq + k * 2 * math.pi / o.freq / 2000) for k in range(2001))
+            return abs(F_(x_min) - grid_min) < 1e-5 and abs(y_min - grid_min) < 1e-5 and -math.pi / o.freq < x_min <= math.pi / o.freq + 1e-12
+        f = o.freq.t
+        F = o.objective_fn
+        f0 = o.f0.t
+        shift = PI / (2 * f)
+        fp, fm = F(shift), F(-shift)
+        B = ATAN2(2 * f0 - fp - fm, fp - fm)
+        u = -shift - B / f
+        period = 2 * PI / f
+        x_min, y_min = r[0].t, r[1].t
+        C = (fp + fm) / 2
+        return And(Or(x_min == u, x_min == u + period), x_min > -PI / f, x_min <= PI / f,
+                   y_min == C - SQRT((f0 - C) * (f0 - C) + (fp - fm) * (fp - fm) / 4))
+    def native_gen(rng, m):
+        """replay / search: a concrete single-frequency objective A*cos(f*x - phi) + C (the function class of the property)"""
+        import random as _r
+        rr = rng or _r.Random(12345)
+        f = rr.choice([0.5, 1.0, 1.5, 2.0, 0.75])
+        A, phi, C = rr.uniform(0.2, 2.0), rr.uniform(-3.1, 3.1), rr.uniform(-1, 1)
+        fn = lambda x_, A=A, f=f, phi=phi, C=C: A * math.cos(f * x_ - phi) + C
+        return dict(objective_fn=fn, freq=f, f0=fn(0.0))
+    fc = FnContract(w, "RotosolveOptimizer.min_analytic", [
+        Case("f0 given", {"objective_fn": T("ufunc", "objective"), "freq": Float, "f0": Float},
+             requires=lambda a: (a.freq > 0) if isinstance(a.freq, float) else (a.freq.t > 0), ghost=ghost, ensures=post,
+             native_gen=native_gen)])
+    return obligations_for("C61", fc, tier), ("pennylane/optimize/rotosolve.py", "RotosolveOptimizer.min_analytic")
+
+
 def build(tier, seed):
     plan = Plan("C61", level="proof")
     plan.explanation = ("The real step/step_and_cost run on symbolic scalars from an ARBITRARY accumulator state with an uninterpreted "
@@ -296,6 +359,14 @@ def build(tier, seed):
                 ob = make_ob(name, mk, state_of, ref, kind, first, method, seed)
                 plan.add(ob)
                 plan.fn_under_contract(*ob.func)
+    try:
+        obs, fn_ = rotosolve_obligations(tier)
+        for ob in obs:
+            plan.add(ob)
+        plan.fn_under_contract(*fn_)
+        plan.assumed_contracts.append("numpy.arctan2 returns a value in [-pi, pi]; numpy.sqrt(a)^2 == a for a >= 0 (Rotosolve.min_analytic)")
+    except Exception as ex:  # pylint: disable=broad-except
+        plan.notes["rotosolve_contract_error"] = repr(ex)
     plan.fn_under_contract("pennylane/optimize/gradient_descent.py", "GradientDescentOptimizer.step")
     plan.fn_under_contract("pennylane/optimize/gradient_descent.py", "GradientDescentOptimizer.step_and_cost")
     plan.fn_under_contract("pennylane/optimize/gradient_descent.py", "GradientDescentOptimizer.compute_grad")
